@@ -645,6 +645,15 @@ def errval(env, f, x):
 
 
 @ghost()
+def issub(env, c, base):
+    cl = env.as_cls(c)
+    bl = env.as_cls(base)
+    if cl.py is not None and bl.py is not None:
+        return z3.BoolVal(issubclass(cl.py, bl.py))
+    return T.F_sub(env.cls_term(cl), env.cls_term(bl))
+
+
+@ghost()
 def is_err(env, e, f, x):
     """e is the exception f raised on x"""
     et, ft, xt = env.to_val(e), env.to_val(f), env.to_val(x)
